@@ -414,6 +414,7 @@ def decide(chk, prop, tlc_jobs, variants, strict_counts=True, sample_filter=None
     chk.cov["replay_wall_s"] = round(time.time() - t0, 1)
     nontrivial = set()
     records = []
+    best = []
     for job, key, r in zip(jobs, keys, res):
         compare_replay(chk, prop, key, groups[key], r, strict_counts)
         if r.get("trace"):
@@ -425,11 +426,17 @@ def decide(chk, prop, tlc_jobs, variants, strict_counts=True, sample_filter=None
                 indeg[d] += 1
         if any(v >= 2 for v in indeg.values()) or any(listed) or len(hist) > 1 or any(ignored) or nulls or late:
             nontrivial.add(key)
-        if sample_filter is None or sample_filter(key):
-            if len(chk.cov["samples"]) < 4 and (len(nontrivial) % 997 == 1 or len(chk.cov["samples"]) == 0) and key in nontrivial:
-                chk.sample({"source": r.get("src"), "history": r.get("hist"), "model_terminal_states": [list(e) for e in sorted(groups[key])][:2],
-                            "observed": {"outcomes": r.get("outcomes"), "nexec": r.get("nexec")},
-                            "trace_events": (r.get("trace") or {}).get("ev", [])[:40]})
+        if key in nontrivial and len(hist) >= 1:
+            score = len((r.get("trace") or {}).get("ev", [])) + 5 * sum(len(x) for x in listed) + 3 * len(fails) + 3 * len(late) + 3 * sum(len(x) for x in ignored)
+            best.append((score, job[0], {"source": r.get("src"), "history": r.get("hist"), "model_terminal_states": [list(e) for e in sorted(groups[key])][:2],
+                                         "observed": {"outcomes": r.get("outcomes"), "nexec": r.get("nexec")},
+                                         "trace_events": (r.get("trace") or {}).get("ev", [])[:60]}))
+            if len(best) > 200:
+                best.sort(key=lambda x: (-x[0], x[1]))
+                del best[4:]
+    best.sort(key=lambda x: (-x[0], x[1]))
+    for _, _, smp in best[:3]:
+        chk.sample(smp)
     chk.cov["distinct_nontrivial"] += len(nontrivial)
     verdicts = validate_traces(chk, prop, records)
     by_id = {r["id"]: r for r in res}
@@ -440,6 +447,40 @@ def decide(chk, prop, tlc_jobs, variants, strict_counts=True, sample_filter=None
                         "trace rejected by MPRunAbsTrace at event %d with clause %s" % (pos - 1, verdict),
                         {"source": r["src"], "history": r["hist"], "events": r["trace"]["ev"][:max(0, pos)][-30:]})
     return groups
+
+
+def repo_test_traces(chk, prop):
+    """code -> spec on the repository's own tests: every successful Program.run() they perform is traced and validated"""
+    import shutil
+    import subprocess
+
+    snap = core.sut()
+    tests = os.path.join(core.REPO, "tests")
+    if not os.path.isdir(tests):
+        return
+    dst = os.path.join(snap, "tests")
+    if not os.path.exists(dst):
+        shutil.copytree(tests, dst, ignore=shutil.ignore_patterns("__pycache__", "*.pyc"))
+    outp = os.path.join(core.scratch_dir("mpv-rt-"), "traces.ndjson")
+    env = dict(os.environ)
+    env["VERIF_TRACE_OUT"] = outp
+    env["PYTHONPATH"] = snap + os.pathsep + core.VERIF
+    p = subprocess.run([sys.executable, "-m", "harness.pytest_trace"], cwd=snap, env=env, stdout=subprocess.PIPE, stderr=subprocess.STDOUT, timeout=900)
+    recs = []
+    if os.path.exists(outp):
+        with open(outp) as f:
+            recs = [json.loads(l) for l in f if l.strip()]
+    chk.cov["repo_test_runs_traced"] = len(recs)
+    if not recs:
+        chk.note("shape-drift: no Program.run() of the repository's tests could be traced (pytest exit %s)" % p.returncode)
+        return
+    tests_of = {r["id"]: r.pop("test") for r in recs}
+    verdicts = validate_traces(chk, prop, recs, shards=1)
+    for r in recs:
+        v, pos = verdicts[r["id"]]
+        if v != "ok":
+            chk.finding("%s:repo-tests:%s" % (prop, v), "engine trace of the repository's own test %s rejected: %s" % (tests_of[r["id"]], v),
+                        {"test": tests_of[r["id"]], "deps": r["deps"], "events": r["ev"][:pos][-25:]})
 
 
 def check_C01(tier):
@@ -462,6 +503,7 @@ def check_C01(tier):
     chk.assumptions += ["Probe commands read every referenced result and return the term of what they read",
                         "the tracer wraps Command.result, Command.validate_params and every registered execute()"]
     decide(chk, "C01", jobs, variants, max_replays=70000 if tier == "quick" else 600000)
+    repo_test_traces(chk, "C01")
     return chk.finish()
 
 
